@@ -100,7 +100,7 @@ CHECKS = {
             "Chains with all script types, non-monotonic timestamps, ties, multiple coinbase-shaped txs, halving boundaries and gap sums above "
             "2^32 x coins x ranges on both builds; every figure of the real report equals the exact recomputation at printed precision; "
             "get_mean checked on thousands of u32 multisets including sums above 2^32.",
-            "No block with timestamp 0; heights below 64*210000; value sums below 2^64."),
+            "No block with timestamp 0; value sums below 2^64."),
     "C17": ("exploration", "trace-spec monitor over /proc/self/fd census events + RLIMIT_NOFILE black-box monitor",
             "DESIGN.md §4 C17",
             "Real runs over 1..100/300-file layouts (disjoint, overlapping, interleaved, revisited) and ranges; after every block the real set of "
